@@ -300,7 +300,7 @@ func (p *IGMPv3GroupRecord) UnmarshalBinary(data []byte) error {
 	p.MulticastAddress = make([]byte, 4)
 	copy(p.MulticastAddress, data[n:n+4])
 	n += 4
-	if len(data) < int(p.Len()) {
+	if len(data) < 8+int(p.AuxDataLen)*4+int(p.NumberOfSources)*4 {
 		return fmt.Errorf("The []byte is too short to unmarshal a full IGMPv3GroupRecord message.")
 	}
 	for i := uint16(0); i < p.NumberOfSources; i++ {
